@@ -12,7 +12,7 @@ from facts import REPO, Program, extract, show, call_obj, call_args, walk, is_ca
 from e1_paths import CFG, peel_cond, single_def
 from report import Check
 
-UNITS = """src/Anamorphosis/CalcAnamTransform.cpp src/Calculators/ACalcDbToDb.cpp src/Calculators/ACalcDbVarCreator.cpp
+UNITS = """src/Basic/NamingConvention.cpp src/Anamorphosis/CalcAnamTransform.cpp src/Calculators/ACalcDbToDb.cpp src/Calculators/ACalcDbVarCreator.cpp
 src/Calculators/ACalcInterpolator.cpp src/Calculators/ACalculator.cpp src/Calculators/CalcGridToGrid.cpp
 src/Calculators/CalcMigrate.cpp src/Calculators/CalcSimuPost.cpp src/Calculators/CalcStatistics.cpp
 src/Estimation/CalcGlobal.cpp src/Estimation/CalcImage.cpp src/Estimation/CalcKriging.cpp
@@ -813,4 +813,113 @@ def main(tier):
     r19_7(prog, chk)
     r19_8(prog, chk, set(classes))
     r19_9(prog, chk)
+    # R19.11: a variable is named in the data base it was created in.  `M = _addVariableDb(W, ..)` creates the column in data base W
+    # (1 = input, 2 = output); `_renameVariable(W', .., M, ..)` must designate the same data base (under the same option guard when
+    # the class creates M in different data bases for different options): naming the identifier in the other data base renames and
+    # re-roles an unrelated column of that data base and leaves the result unnamed
+    def _guard(f, node):
+        for a in f.ancestors(node):
+            if a["k"] == "If" and a["c"][-3] is not None:
+                return show(a["c"][-3])
+        return ""
+    def _lit(e):
+        while e is not None and e["k"] == "Cast":
+            e = e["c"][0]
+        return e.get("v") if e is not None and e["k"] == "Int" else None
+    created = {}
+    for f in prog.funcs:
+        if f.body is None or not f.cls:
+            continue
+        for x in f.walk():
+            if x["k"] == "Assign" and x.get("op") == "=" and x["c"][0] is not None and x["c"][0]["k"] == "MemberExpr" and x["c"][1] is not None:
+                for y in walk(x["c"][1]):
+                    if y["k"] == "MCall" and (y.get("callee") or "").endswith("::_addVariableDb"):
+                        w = _lit(call_args(y)[0]) if call_args(y) else None
+                        if w is not None:
+                            created.setdefault((f.cls, x["c"][0]["n"]), []).append((w, _guard(f, x)))
+    n11 = 0
+    for f in sorted(prog.funcs, key=lambda x: (x.file, x.line)):
+        if f.body is None or not f.cls:
+            continue
+        for c in f.calls():
+            if not (c.get("callee") or "").endswith("::_renameVariable"):
+                continue
+            a = call_args(c)
+            if len(a) < 5 or a[4] is None:
+                continue
+            w2 = _lit(a[0])
+            m = a[4]
+            while m is not None and m["k"] == "Cast":
+                m = m["c"][0]
+            if w2 is None or m is None or m["k"] != "MemberExpr":
+                continue
+            cands = []
+            for K in [f.cls] + prog.bases(f.cls):
+                cands += created.get((K, m["n"]), [])
+            if not cands:
+                continue
+            g2 = _guard(f, c)
+            same_guard = [w for w, g in cands if g == g2]
+            ws = set(same_guard) if same_guard else ({w for w, _ in cands} if len({w for w, _ in cands}) == 1 else set())
+            if not ws:
+                continue
+            n11 += 1
+            ok = w2 in ws
+            chk.analysed(f)
+            chk.ob("R19.11", "%s: `%s` is named in the data base it was created in" % (f.name, m["n"]), f.loc(c), ok,
+                   detail=None if ok else "`%s` is created by _addVariableDb(%s, ..) %sand named by _renameVariable(%s, ..): the identifier is looked up in the other "
+                   "data base - an unrelated column of that data base is renamed and given the role, the result keeps no name" % (
+                       m["n"], "/".join(str(w) for w in sorted(ws)), ("under `%s` " % g2) if g2 else "", w2),
+                   key="R19.11|%s|%s|%s" % (f.name, m["n"], g2[:30]))
+    chk.floor("R19.11", n11, 8)
+    # R19.12: an option a caller can set has an effect.  A data member filled from a constructor / setter parameter and that no
+    # getter exposes must be READ by some method other than the copy operations and the printout: otherwise the documented switch
+    # (NamingConvention's `flag_locator` = "do not give the results a role") is silently ignored and the calculation changes roles
+    # the caller asked it to leave alone
+    n12 = 0
+    for K in sorted(prog.classes):
+        if K not in ("NamingConvention",) and "ACalcDbToDb" not in prog.bases(K) and "ACalculator" not in prog.bases(K):
+            continue
+        meths = [f for f in prog.funcs if f.cls == K and f.body is not None]
+        if not meths:
+            continue
+        # every declared method must have been analysed (a class whose source file is not among the units would look like it reads nothing)
+        with_body = {f.short for f in meths}
+        declared = {m_["n"] for m_ in prog.classes[K].get("methods", []) if not m_.get("pure") and not m_.get("defaulted") and not m_.get("deleted")}
+        if any(nm not in with_body for nm in declared if not nm.startswith(("operator", "~")) and nm != K):
+            continue
+        fields = [fd["n"] for fd in prog.classes[K].get("fields", []) if not fd.get("static") and fd["t"].replace("const ", "").strip() in ("bool", "int", "double")
+                  and "verbose" not in fd["n"].lower()]          # verbosity switches change no result
+        for fl in fields:
+            setters = [f for f in meths if f.kind in ("ctor", "method") and any(
+                (i_.get("field") == fl and i_.get("init") is not None and any(y["k"] == "DeclRefExpr" and y.get("dk") == "parm" for y in walk(i_["init"])))
+                for i_ in (f.d.get("inits") or [])) and len(f.params) and not (len(f.params) == 1 and K in f.params[0]["t"])]
+            setters += [f for f in meths if f.kind == "method" and any(
+                x["k"] == "Assign" and x["c"][0] is not None and x["c"][0]["k"] == "MemberExpr" and x["c"][0]["n"] == fl and x["c"][1] is not None and
+                x["c"][1]["k"] == "DeclRefExpr" and x["c"][1].get("dk") == "parm" for x in f.walk()) and not f.short.startswith("operator")]
+            if not setters:
+                continue
+            getter = any(f.kind == "method" and len(list(f.walk())) < 12 and any(
+                r["k"] == "Return" and r.get("c") and r["c"][0] is not None and any(y["k"] == "MemberExpr" and y["n"] == fl for y in walk(r["c"][0])) for r in f.walk())
+                for f in meths)
+            if getter:
+                continue
+            readers = []
+            for f in meths:
+                if f.kind == "ctor" or f.short.startswith("operator") or f.short in ("toString", "display", "_recopy", "clone"):
+                    continue
+                written = {x["c"][0]["i"] for x in f.walk() if x["k"] == "Assign" and x["c"][0] is not None and x["c"][0]["k"] == "MemberExpr"}
+                if any(x["k"] == "MemberExpr" and x["n"] == fl and x["i"] not in written for x in f.walk()):
+                    readers.append(f)
+            n12 += 1
+            ok = bool(readers)
+            chk.ob("R19.12", "%s::%s (set by %s) is consulted by some method" % (K, fl, setters[0].short), setters[0].loc(), ok,
+                   detail=None if ok else "the option is stored, copied and printed but no method reads it: what the caller asked through it is ignored",
+                   key="R19.12|%s::%s" % (K, fl))
+    chk.floor("R19.12", n12, 4)
+    # R19.10 (rule K): the columns a calculation memorises, reads, writes and deletes are designated by their persistent identifiers,
+    # never by a column index (uidkinds.py): after an earlier deletion the calculation would work on - and restore the roles of -
+    # other columns than its own
+    import uidkinds
+    uidkinds.rule(prog, chk, "R19.10", ("src/",), 40)
     return chk.finish()
